@@ -59,13 +59,14 @@ struct CondArg : Tracked<seq::T_COND, false>
 	// condition object itself on every trigger, not a copy of it
 	mutable int calls;
 	explicit CondArg(int id) : Tracked<seq::T_COND, false>(id), calls(0) {}
-	bool operator() (int arg) const { faultPoint(F_CALL); FaultOff off; this->alive("condition evaluated"); return g_sink->condition(this->id, true, arg, calls++); }
+	// the result is an int whose truthy value is 4 ("flags & mask"): the library must convert it to bool, not compare it with true
+	int operator() (int arg) const { faultPoint(F_CALL); FaultOff off; this->alive("condition evaluated"); return g_sink->condition(this->id, true, arg, calls++) ? 4 : 0; }
 };
 struct CondNoArg : Tracked<seq::T_COND, false>
 {
 	mutable int calls;
 	explicit CondNoArg(int id) : Tracked<seq::T_COND, false>(id), calls(0) {}
-	bool operator() () const { faultPoint(F_CALL); FaultOff off; this->alive("condition evaluated"); return g_sink->condition(this->id, false, 0, calls++); }
+	long operator() () const { faultPoint(F_CALL); FaultOff off; this->alive("condition evaluated"); return g_sink->condition(this->id, false, 0, calls++) ? 2L : 0L; }
 };
 
 // callable both with the trigger's argument and with none: "evaluated ... with the trigger's arguments if it accepts them" - the
